@@ -1,5 +1,6 @@
 import ObiVerif.Model.Pcr
 import ObiVerif.Lemmas.Pcr
+import ObiVerif.Lemmas.PcrCircular
 /-!
 # C11 — in-silico PCR returns exactly the amplicons the primers define, on either strand (property theorems)
 
@@ -18,9 +19,9 @@ Vocabulary (`Lemmas/Pcr.lean`):
 
 Proved for **linear** templates, every template, every primer pair of 1..63 positions each (different lengths included),
 every budget, every min/max/extension setting: `pcr_total`, `pcr_sound`, `pcr_complete` and their field-level reading
-`pcr_sound_fields`; `pcr_strand_symmetry` (see below).  The statements for circular templates (`pcr_rotation`, and
-soundness/completeness on the circle) are given in full in the comments of the last section; they are tied by the
-correspondence check and the oracle only.
+`pcr_sound_fields`; `pcr_strand_symmetry` (see below).  Proved for **circular** templates in which the primers fit
+(`PrimersFit`: every template of at least 64 symbols): `pcr_total_circular`, `pcr_sound_circular`, `pcr_complete_circular`,
+`pcr_rotation` / `pcr_rotation_mem`, `pcr_strand_symmetry_circular` (section "circular templates").
 -/
 namespace ObiVerif.Props.C11
 open ObiVerif ObiVerif.Apat ObiVerif.Pcr
@@ -202,27 +203,257 @@ example : MatchAt exPrimers.forward (enc [116, 97, 99, 103, 116, 116, 99, 99, 97
     linBounds ⟨0, 0, false, -1, false⟩ 10 1 3 5 3 = some (4, 5) :=
   ⟨⟨by decide, by decide, by decide⟩, ⟨by decide, by decide, by decide⟩, by decide, by decide⟩
 
+/-! ## circular templates
+
+Vocabulary (`Lemmas/PcrCircular.lean`), `L` the length of the template, `d` its encoding:
+* `CMatchAt P d i k` — a priming site of the circle: `i < L` and `MatchAt P (d ++ d) i k` (the pattern matches the word read
+  clockwise from `i`); from C10's exactness theorem through `findAllIndex_exact_circular` (`Lemmas/ApatCircular.lean`);
+* `cgap L i dl j = (j - (i + dl)) mod L` — the symbols met clockwise from the end of the direct site to the start of the
+  complemented site;
+* `cstart`, `creq`, `clen` — the window the options ask for: the gap from `(i + dl) mod L`, or — with an extension `e` —
+  `gap + dl + cl + 2e` symbols from `(i - e) mod L`; `clen = creq` when `creq ≤ L` (`clen_of_le`), `creq` modulo `L`
+  otherwise (what `Subsequence` silently returns; `--only-complete-flanking` has no effect on a circular template);
+* `cseg seq a n` — the `n` symbols read on the circle from `a`; `mkAmpC` — the record (id coordinates `a+1 .. min(a+n, L)`).
+Domain: `PrimersFit P L` — no primer is longer than the template (true as soon as `L ≥ 64`, `primersFit_of_64`); on a
+shorter circular template the C encoder reads past the sequence (C10 note), and the model is only tied to the code when
+the primers fit. -/
+
+/-- **No `log.Fatalf`, no panic on a circular template** (as repaired: patch `C11-circular-extension-before-origin`). -/
+theorem pcr_total_circular (P : Primers) (hP : PrimersOk P) (o : Opts) (hc : o.circular = true) (seq : Bytes)
+    (hL : PrimersFit P seq.length) : ∃ l, pcr P o seq = .ok l := by
+  unfold pcr
+  apply mapM_id_total
+  intro x hx
+  unfold pcrRaw at hx
+  rcases List.mem_append.mp hx with hx | hx
+  · obtain ⟨i, ki, j, kj, _, _, _, _, rfl⟩ :=
+      (mem_block_circular true _ _ hP.forward hP.crev _ o hc seq hL.forward hL.crev x).mp hx
+    exact ⟨_, rfl⟩
+  · obtain ⟨i, ki, j, kj, _, _, _, _, rfl⟩ :=
+      (mem_block_circular false _ _ hP.reverse hP.cfwd _ o hc seq hL.reverse hL.cfwd x).mp hx
+    exact ⟨_, rfl⟩
+
+/-- **Soundness on a circular template.**  Every reported amplicon comes from a site `(i, ki)` of one primer and a site
+`(j, kj)` of the complement of the other primer of the circle, whose clockwise gap `g = cgap` is within the bounds
+(`g > 0` included) and such that the two sites and the gap fit in one turn (`g + dl + cl ≤ L`: the sites do not overlap
+anywhere on the circle, the origin included); the record is `mkAmpC` of these. -/
+theorem pcr_sound_circular (P : Primers) (hP : PrimersOk P) (o : Opts) (hc : o.circular = true) (seq : Bytes)
+    (hL : PrimersFit P seq.length) (l : List Amplicon) (h : pcr P o seq = .ok l) (x : Amplicon) (hx : x ∈ l) :
+    (∃ i ki j kj, CMatchAt P.forward (enc seq) i ki ∧ CMatchAt P.crev (enc seq) j kj ∧
+        lengthOk o (cgap seq.length i P.forward.patlen j) = true ∧
+        cgap seq.length i P.forward.patlen j + P.forward.patlen + P.crev.patlen ≤ seq.length ∧
+        x = mkAmpC true seq i ki j kj P.forward.patlen P.crev.patlen (cstart o seq.length i P.forward.patlen)
+              (clen o seq.length i P.forward.patlen j P.crev.patlen)) ∨
+    (∃ i ki j kj, CMatchAt P.reverse (enc seq) i ki ∧ CMatchAt P.cfwd (enc seq) j kj ∧
+        lengthOk o (cgap seq.length i P.reverse.patlen j) = true ∧
+        cgap seq.length i P.reverse.patlen j + P.reverse.patlen + P.cfwd.patlen ≤ seq.length ∧
+        x = mkAmpC false seq i ki j kj P.reverse.patlen P.cfwd.patlen (cstart o seq.length i P.reverse.patlen)
+              (clen o seq.length i P.reverse.patlen j P.cfwd.patlen)) := by
+  rcases (mem_pcr_iff P o seq l h x).mp hx with hb | hb
+  · left
+    obtain ⟨i, ki, j, kj, h1, h2, h3, h4, h5⟩ :=
+      (mem_block_circular true _ _ hP.forward hP.crev _ o hc seq hL.forward hL.crev _).mp hb
+    exact ⟨i, ki, j, kj, h1, h2, h3, h4, by cases h5; rfl⟩
+  · right
+    obtain ⟨i, ki, j, kj, h1, h2, h3, h4, h5⟩ :=
+      (mem_block_circular false _ _ hP.reverse hP.cfwd _ o hc seq hL.reverse hL.cfwd _).mp hb
+    exact ⟨i, ki, j, kj, h1, h2, h3, h4, by cases h5; rfl⟩
+
+/-- **Completeness on a circular template**: every such pair of sites of the circle is reported, in both orientations —
+the amplicon, the direct site or the complemented site may run across the origin. -/
+theorem pcr_complete_circular (P : Primers) (hP : PrimersOk P) (o : Opts) (hc : o.circular = true) (seq : Bytes)
+    (hL : PrimersFit P seq.length) (l : List Amplicon) (h : pcr P o seq = .ok l) :
+    (∀ i ki j kj, CMatchAt P.forward (enc seq) i ki → CMatchAt P.crev (enc seq) j kj →
+      lengthOk o (cgap seq.length i P.forward.patlen j) = true →
+      cgap seq.length i P.forward.patlen j + P.forward.patlen + P.crev.patlen ≤ seq.length →
+      mkAmpC true seq i ki j kj P.forward.patlen P.crev.patlen (cstart o seq.length i P.forward.patlen)
+        (clen o seq.length i P.forward.patlen j P.crev.patlen) ∈ l) ∧
+    (∀ i ki j kj, CMatchAt P.reverse (enc seq) i ki → CMatchAt P.cfwd (enc seq) j kj →
+      lengthOk o (cgap seq.length i P.reverse.patlen j) = true →
+      cgap seq.length i P.reverse.patlen j + P.reverse.patlen + P.cfwd.patlen ≤ seq.length →
+      mkAmpC false seq i ki j kj P.reverse.patlen P.cfwd.patlen (cstart o seq.length i P.reverse.patlen)
+        (clen o seq.length i P.reverse.patlen j P.cfwd.patlen) ∈ l) := by
+  constructor
+  · intro i ki j kj h1 h2 h3 h4
+    rw [mem_pcr_iff P o seq l h]
+    left
+    exact (mem_block_circular true _ _ hP.forward hP.crev _ o hc seq hL.forward hL.crev _).mpr
+      ⟨i, ki, j, kj, h1, h2, h3, h4, rfl⟩
+  · intro i ki j kj h1 h2 h3 h4
+    rw [mem_pcr_iff P o seq l h]
+    right
+    exact (mem_block_circular false _ _ hP.reverse hP.cfwd _ o hc seq hL.reverse hL.cfwd _).mpr
+      ⟨i, ki, j, kj, h1, h2, h3, h4, rfl⟩
+
+/-- what the record of a pair of sites of the circle says, field by field (forward orientation) -/
+theorem mkAmpC_forward_fields (seq : Bytes) (i ki j kj dl cl a n : Nat) :
+    let x := mkAmpC true seq i ki j kj dl cl a n
+    x.isForward = true ∧ x.seq = cseg seq a n ∧ x.fmatch = cseg seq i dl ∧ x.ferr = ki ∧
+      x.rmatch = SeqOps.rc (cseg seq j cl) ∧ x.rerr = kj ∧ x.idFrom = a + 1 ∧ x.idTo = (min (a + n) seq.length : Nat) := by
+  simp [mkAmpC]
+
+/-- … reverse orientation -/
+theorem mkAmpC_reverse_fields (seq : Bytes) (i ki j kj dl cl a n : Nat) :
+    let x := mkAmpC false seq i ki j kj dl cl a n
+    x.isForward = false ∧ x.seq = SeqOps.rc (cseg seq a n) ∧ x.fmatch = SeqOps.rc (cseg seq j cl) ∧ x.ferr = kj ∧
+      x.rmatch = cseg seq i dl ∧ x.rerr = ki ∧ x.idFrom = a + 1 ∧ x.idTo = (min (a + n) seq.length : Nat) := by
+  simp [mkAmpC]
+
+/-! ### rotation -/
+
+/-- `obs` does not see the coordinates: a record and the record seen from another origin are the same amplicon -/
+theorem obs_rotAmp (L r : Nat) (x : Amplicon) : obs (rotAmp L r x) = obs x := rfl
+
+/-- **`pcr_rotation`, record level.**  `rotl seq r` is the same circle read from position `r mod L`.  Every amplicon of the
+template is reported for the rotated template with the same direction, nucleotides, matched strings and error counts, its
+coordinates (id, hits) shifted by `r` modulo `L` (`rotAmp`). -/
+theorem pcr_rotation_mem (P : Primers) (hP : PrimersOk P) (o : Opts) (hc : o.circular = true) (seq : Bytes)
+    (hL : PrimersFit P seq.length) (r : Nat) (l l' : List Amplicon)
+    (h : pcr P o seq = .ok l) (h' : pcr P o (rotl seq r) = .ok l') (x : Amplicon) (hx : x ∈ l) :
+    rotAmp seq.length r x ∈ l' := by
+  rw [mem_pcr_iff P o _ l' h']
+  rcases (mem_pcr_iff P o seq l h x).mp hx with hb | hb
+  · exact Or.inl (block_rot true _ _ hP.forward hP.crev _ o hc seq hL.forward hL.crev r x hb)
+  · exact Or.inr (block_rot false _ _ hP.reverse hP.cfwd _ o hc seq hL.reverse hL.cfwd r x hb)
+
+/-- **`pcr_rotation`**: rotating a circular template leaves the set of amplicons (direction, nucleotides, matched strings,
+error counts) unchanged. -/
+theorem pcr_rotation (P : Primers) (hP : PrimersOk P) (o : Opts) (hc : o.circular = true) (seq : Bytes)
+    (hL : PrimersFit P seq.length) (r : Nat) (l l' : List Amplicon)
+    (h : pcr P o seq = .ok l) (h' : pcr P o (rotl seq r) = .ok l') :
+    ∀ t, t ∈ l'.map obs ↔ t ∈ l.map obs := by
+  intro t
+  constructor
+  · intro ht
+    obtain ⟨y, hy, rfl⟩ := List.mem_map.mp ht
+    have hback : pcr P o (rotl (rotl seq r) (seq.length - r % seq.length)) = .ok l := by
+      rw [rotl_rotl_back]; exact h
+    have hL' : PrimersFit P (rotl seq r).length := by rw [rotl_length]; exact hL
+    have := pcr_rotation_mem P hP o hc (rotl seq r) hL' (seq.length - r % seq.length) l' l h' hback y hy
+    exact List.mem_map.mpr ⟨_, this, obs_rotAmp _ _ y⟩
+  · intro ht
+    obtain ⟨x, hx, rfl⟩ := List.mem_map.mp ht
+    exact List.mem_map.mpr ⟨_, pcr_rotation_mem P hP o hc seq hL r l l' h h' x hx, obs_rotAmp _ _ x⟩
+
+/-- **`pcr_rotation`, multiset form**: the amplicons of the rotated template are, as a multiset, the amplicons of the template
+with their coordinates shifted — nothing is lost, nothing is reported twice. -/
+theorem pcr_rotation_perm (P : Primers) (hP : PrimersOk P) (o : Opts) (hc : o.circular = true) (seq : Bytes)
+    (hL : PrimersFit P seq.length) (r : Nat) (l l' : List Amplicon)
+    (h : pcr P o seq = .ok l) (h' : pcr P o (rotl seq r) = .ok l') :
+    l'.Perm (l.map (rotAmp seq.length r)) := by
+  have h0 : 0 < seq.length := by have := hP.forward.pos; have := hL.forward; omega
+  have hnd : (l.map (rotAmp seq.length r)).Nodup := by
+    rw [List.nodup_iff_pairwise_ne, List.pairwise_map]
+    refine (List.nodup_iff_pairwise_ne.mp (pcr_nodup P o seq l h)).imp_of_mem ?_
+    intro a b ha hb hab he
+    apply hab
+    rw [← rotAmp_back_mem P hP o hc seq hL r l h a ha, ← rotAmp_back_mem P hP o hc seq hL r l h b hb, he]
+  rw [List.perm_ext_iff_of_nodup (pcr_nodup P o _ l' h') hnd]
+  intro a
+  constructor
+  · intro ha
+    have hback : pcr P o (rotl (rotl seq r) (seq.length - r % seq.length)) = .ok l := by
+      rw [rotl_rotl_back]; exact h
+    have hL' : PrimersFit P (rotl seq r).length := by rw [rotl_length]; exact hL
+    have h1 := pcr_rotation_mem P hP o hc (rotl seq r) hL' (seq.length - r % seq.length) l' l h' hback a ha
+    have h2 := rotAmp_back_mem P hP o hc (rotl seq r) hL' (seq.length - r % seq.length) l' h' a ha
+    rw [rotl_length] at h1 h2
+    rw [rotAmp_congr seq.length _ r (back_mod seq.length r h0)] at h2
+    exact List.mem_map.mpr ⟨_, h1, h2⟩
+  · intro ha
+    obtain ⟨x, hx, rfl⟩ := List.mem_map.mp ha
+    exact pcr_rotation_mem P hP o hc seq hL r l l' h h' x hx
+
+/-! ### strand symmetry on the circle -/
+
+/-- `obs` of a flipped record: the direction negated, everything else a user sees unchanged -/
+theorem obs_flipC (L : Nat) (x : Amplicon) :
+    obs (flipC L x) = (!x.isForward, x.seq, x.fmatch, x.ferr, x.rmatch, x.rerr) := rfl
+
+/-- **Strand symmetry on a circular template** (template over the IUPAC nucleotide symbols, `u` excluded; primers that
+fit): the PCR of the reverse-complemented circle returns, as a multiset, the amplicons of the circle with the direction
+flipped — same nucleotides, same matched strings, same error counts; id coordinates and hits mirrored modulo `L`
+(`flipC`). -/
+theorem pcr_strand_symmetry_circular (P : Primers) (hP : PrimersOk P) (hM : PrimersMirror P) (o : Opts)
+    (hc : o.circular = true) (seq : Bytes) (hs : ∀ b ∈ seq, b ∈ iupac) (hL : PrimersFit P seq.length)
+    (l l' : List Amplicon) (h : pcr P o seq = .ok l) (h' : pcr P o (SeqOps.rc seq) = .ok l') :
+    l'.Perm (l.map (flipC seq.length)) := by
+  have hrr : pcr P o (SeqOps.rc (SeqOps.rc seq)) = .ok l := by rw [rc_rc seq hs]; exact h
+  have hL' : PrimersFit P (SeqOps.rc seq).length := by rw [rc_length]; exact hL
+  have hnd : (l.map (flipC seq.length)).Nodup := by
+    rw [List.nodup_iff_pairwise_ne, List.pairwise_map]
+    refine (List.nodup_iff_pairwise_ne.mp (pcr_nodup P o seq l h)).imp_of_mem ?_
+    intro a b ha hb hab he
+    apply hab
+    rw [← flipC_flipC_mem P hP o hc seq hs hL l h a ha, ← flipC_flipC_mem P hP o hc seq hs hL l h b hb, he]
+  rw [List.perm_ext_iff_of_nodup (pcr_nodup P o _ l' h') hnd]
+  intro a
+  constructor
+  · intro ha
+    have h1 := flip_mem_circ P hP hM o hc (SeqOps.rc seq) (rc_iupac seq hs) hL' l' l h' hrr a ha
+    have h2 := flipC_flipC_mem P hP o hc (SeqOps.rc seq) (rc_iupac seq hs) hL' l' h' a ha
+    rw [rc_length] at h1 h2
+    exact List.mem_map.mpr ⟨_, h1, h2⟩
+  · intro ha
+    obtain ⟨x, hx, rfl⟩ := List.mem_map.mp ha
+    exact flip_mem_circ P hP hM o hc seq hs hL l l' h h' x hx
+
+/-- the same on what is observable: equal multisets of (direction, nucleotides, matches, error counts), direction negated -/
+theorem pcr_strand_symmetry_circular_obs (P : Primers) (hP : PrimersOk P) (hM : PrimersMirror P) (o : Opts)
+    (hc : o.circular = true) (seq : Bytes) (hs : ∀ b ∈ seq, b ∈ iupac) (hL : PrimersFit P seq.length)
+    (l l' : List Amplicon) (h : pcr P o seq = .ok l) (h' : pcr P o (SeqOps.rc seq) = .ok l') :
+    (l'.map obs).Perm (l.map fun a => (!a.isForward, a.seq, a.fmatch, a.ferr, a.rmatch, a.rerr)) := by
+  have := (pcr_strand_symmetry_circular P hP hM o hc seq hs hL l l' h h').map obs
+  rw [List.map_map] at this
+  exact this
+
+/-! ### non-vacuity and tests (circular) -/
+
+/-- the circle `tacgttccaa` read from position 3 is `gttccaatac` -/
+example : rotl ([116, 97, 99, 103, 116, 116, 99, 99, 97, 97] : Bytes) 3 = [103, 116, 116, 99, 99, 97, 97, 116, 97, 99] := by decide
+
+/-- the hypotheses of the circular theorems are satisfiable on a pair whose DIRECT SITE RUNS ACROSS THE ORIGIN: on the circle
+`gttccaatac` ACG lies at 8, 9, 0 and TCC (complemented GGA) at 2; one symbol apart clockwise (`cgap = 1`), the two sites and
+the gap fit in one turn; the window is the symbol at position 1 -/
+example : PrimersFit exPrimers 10 ∧
+    CMatchAt exPrimers.forward (enc [103, 116, 116, 99, 99, 97, 97, 116, 97, 99]) 8 0 ∧
+    CMatchAt exPrimers.crev (enc [103, 116, 116, 99, 99, 97, 97, 116, 97, 99]) 2 0 ∧
+    cgap 10 8 3 2 = 1 ∧ lengthOk ⟨0, 0, true, -1, false⟩ (cgap 10 8 3 2) = true ∧ cgap 10 8 3 2 + 3 + 3 ≤ 10 ∧
+    cstart ⟨0, 0, true, -1, false⟩ 10 8 3 = 1 ∧ clen ⟨0, 0, true, -1, false⟩ 10 8 3 2 3 = 1 :=
+  ⟨⟨by decide, by decide, by decide, by decide⟩, ⟨by decide, by decide, by decide, by decide⟩,
+   ⟨by decide, by decide, by decide, by decide⟩, by decide, by decide, by decide, by decide, by decide⟩
+
+/-- test (sample evaluation of the model): that pair is what the model reports for the circle, and what it reports for
+the circle read from its original origin is the same amplicon, coordinates shifted (`rotAmp`); with flanks of 1 symbol the
+window is `t|acg|t|tcc|a` (9 symbols from position 7, across the origin); with flanks of 2 symbols the request (11 symbols)
+is longer than the circle and `Subsequence` returns it modulo the length: 1 symbol (`clen`) -/
+example :
+    (match pcr exPrimers ⟨0, 0, true, -1, false⟩ [103, 116, 116, 99, 99, 97, 97, 116, 97, 99],
+           pcr exPrimers ⟨0, 0, true, -1, false⟩ [116, 97, 99, 103, 116, 116, 99, 99, 97, 97],
+           pcr exPrimers ⟨0, 0, true, 1, false⟩ [103, 116, 116, 99, 99, 97, 97, 116, 97, 99],
+           pcr exPrimers ⟨0, 0, true, 2, false⟩ [103, 116, 116, 99, 99, 97, 97, 116, 97, 99] with
+     | .ok l, .ok l', .ok l1, .ok l2 =>
+       decide (l = [mkAmpC true [103, 116, 116, 99, 99, 97, 97, 116, 97, 99] 8 0 2 0 3 3 1 1]) &&
+       decide (l' = [rotAmp 10 7 (mkAmpC true [103, 116, 116, 99, 99, 97, 97, 116, 97, 99] 8 0 2 0 3 3 1 1)]) &&
+       decide (l1 = [mkAmpC true [103, 116, 116, 99, 99, 97, 97, 116, 97, 99] 8 0 2 0 3 3 7 9]) &&
+       decide (l2 = [mkAmpC true [103, 116, 116, 99, 99, 97, 97, 116, 97, 99] 8 0 2 0 3 3 6 1]) &&
+       l.map obs == [(true, [116], [97, 99, 103], 0, [103, 103, 97], 0)] &&
+       l1.map (·.seq) == [[116, 97, 99, 103, 116, 116, 99, 99, 97]]
+     | _, _, _, _ => false) = true ∧
+    cstart ⟨0, 0, true, 1, false⟩ 10 8 3 = 7 ∧ clen ⟨0, 0, true, 1, false⟩ 10 8 3 2 3 = 9 ∧
+    creq ⟨0, 0, true, 2, false⟩ 10 8 3 2 3 = 11 ∧ clen ⟨0, 0, true, 2, false⟩ 10 8 3 2 3 = 1 := by decide
+
 /-!
-## circular templates — statements (not proved; tied by the correspondence check and the oracle)
+## what is left
 
-On a circular template of `L ≥ 64` symbols the matcher works on `d ++ d.take 64`; a site is `MatchAt P (d ++ d) i k` with
-`i < L`.  With `g := (j - (i + dl)) mod L` (the number of symbols met going clockwise from the end of the direct site to the
-start of the complemented site):
-
-```
-theorem pcr_sound_circular / pcr_complete_circular (hc : o.circular = true) (hL : 64 ≤ seq.length) :
-    x ∈ l ↔ ∃ dir i ki j kj, i < L ∧ j < L ∧ MatchAt D (d ++ d) i ki ∧ MatchAt C (d ++ d) j kj ∧
-              lengthOk o g = true ∧ g + dl + cl ≤ L ∧                -- the two sites do not overlap on the circle
-              x = record of the window of the circle starting at (i + dl) mod L with g symbols
-                  (with an extension e: starting at (i - e) mod L with g + dl + cl + 2e symbols, when that is ≤ L)
-theorem pcr_rotation (hc : o.circular = true) (hL : 64 ≤ seq.length) (r : Nat) :
-    ∀ t, t ∈ (pcr P o (seq.rotate r)).map obs ↔ t ∈ (pcr P o seq).map obs        -- set of amplicons
-theorem pcr_strand_symmetry_circular : as `pcr_strand_symmetry_obs` with `hc : o.circular = true`
-```
-These hold of the model as repaired (patches `C11-reverse-block-circular-length`, `C11-circular-overlap-across-origin`,
-`C11-circular-extension-before-origin`); they were false of the unrepaired code (failing inputs in the corpus of
-`harness/c11.go`).  The harness oracle checks all three on every circular case: brute force over all pairs of positions
-of the circle, reverse-complemented templates, rotated templates.
+* the circular theorems hold for primers that fit in the template (`PrimersFit`, e.g. every template of at least 64 symbols);
+  a circular template shorter than a primer is outside the domain of the matcher model (C10 note: the C encoder reads 64
+  symbols whatever the length);
+* `PrimersMirror` (the complemented patterns carry the mirrored code lists) is a hypothesis of the strand-symmetry theorems,
+  checked by C10's oracle on every complemented pattern;
+* `pcr_rotation` is stated on sets of observable amplicons and, record by record, with shifted coordinates
+  (`pcr_rotation_mem`); the circular theorems are about the model as repaired (patches `C11-reverse-block-circular-length`,
+  `C11-circular-overlap-across-origin`, `C11-circular-extension-before-origin`).
 -/
 
 end ObiVerif.Props.C11
